@@ -205,7 +205,10 @@ package contractcourt
 //@   loop * havoc
 //@   site call SwapContract: assert retn(Resolve, 1) == nil && arg(2) == retn(Resolve, 0) && retn(Resolve, 0) != nil
 //@   site call replaceResolver: assert arg(2) == retn(Resolve, 0) && called(SwapContract)
-//@   site call ResolveContract: assert retn(Resolve, 1) == nil && retn(Resolve, 0) == nil && ret(IsResolved, 1)
+//@   site call ResolveContract nth 1: assert retn(Resolve, 1) == nil && retn(Resolve, 0) == nil && ret(IsResolved, 2)
+//@   // a contract handed over already resolved (checkpointed as resolved before a restart) is removed from the log (finding F12)
+//@   site call ResolveContract nth 0 as resolved-on-entry-is-removed: assert ret(IsResolved, 0) && arg(1) == currentContract
+//@   ensures ret(IsResolved, 0) ==> called(ResolveContract)
 //@
 //@ func (c *ChannelArbitrator) stateStep
 //@   props C13 C12
@@ -390,3 +393,14 @@ package contractcourt
 //@   site mapupdate unmerged nth 0: assert arg(key) == LocalHtlcSet && arg(val) == htlcSets[LocalHtlcSet]
 //@   site mapupdate unmerged nth 1: assert arg(key) == RemoteHtlcSet && arg(val) == htlcSets[RemoteHtlcSet]
 //@   site mapupdate unmerged nth 2: assert arg(key) == RemotePendingHtlcSet && arg(val) == htlcSets[RemotePendingHtlcSet]
+//@
+//@ // ---- C13 (finding F13): restoring the taproot control blocks from the logged resolutions does not wipe what the
+//@ // ---- resolver learned and checkpointed afterwards
+//@ func maybeAugmentTaprootResolvers
+//@   props C13
+//@   loop * havoc
+//@   // (store 0 is the incoming contest resolver case: it never checkpoints a learned preimage, it is swapped for its success resolver)
+//@   site store htlcSuccessResolver.htlcResolution nth 1 as learned-preimage-kept: assert
+//@        exists(k, 0, 32, htlcResolution.Preimage[k] != 0) ==> value.Preimage == htlcResolution.Preimage
+//@   site store htlcSuccessResolver.htlcResolution as same-outpoint: assert value.ClaimOutpoint.Hash == htlcResolution.ClaimOutpoint.Hash &&
+//@        value.ClaimOutpoint.Index == htlcResolution.ClaimOutpoint.Index
